@@ -724,6 +724,9 @@ static void LZ4IO_readAndProcess(void* arg)
         if (inSize > chunkSize) {
             END_PROCESS(32, "Read error (read %u > %u [chunk size])", (unsigned)inSize, (unsigned)chunkSize);
         }
+        if (inSize < chunkSize && ferror(rjd->fin)) {
+            END_PROCESS(36, "Read error : cannot read input file");
+        }
         rjd->totalReadSize += inSize;
         /* special case: nothing left: stop read operation */
         if (inSize == 0) {
@@ -1788,7 +1791,10 @@ LZ4IO_decodeLegacyStream(FILE* finput, FILE* foutput, const LZ4IO_prefs_t* prefs
 
         /* Block Size */
         {   size_t const sizeCheck = fread(header, 1, LZ4IO_LEGACY_BLOCK_HEADER_SIZE, finput);
-            if (sizeCheck == 0) break;                   /* Nothing to read : file read is completed */
+            if (sizeCheck == 0) {
+                if (ferror(finput)) END_PROCESS(61, "Read error : cannot read block size in Legacy format");
+                break;                   /* Nothing to read : file read is completed */
+            }
             if (sizeCheck != LZ4IO_LEGACY_BLOCK_HEADER_SIZE)
                 END_PROCESS(61, "Error: cannot read block size in Legacy format");
         }
@@ -1858,7 +1864,10 @@ LZ4IO_decodeLegacyStream(FILE* finput, FILE* foutput, const LZ4IO_prefs_t* prefs
 
         /* Block Size */
         {   size_t const sizeCheck = fread(in_buff, 1, LZ4IO_LEGACY_BLOCK_HEADER_SIZE, finput);
-            if (sizeCheck == 0) break;                   /* Nothing to read : file read is completed */
+            if (sizeCheck == 0) {
+                if (ferror(finput)) END_PROCESS(62, "Read error : cannot read block size in Legacy format");
+                break;                   /* Nothing to read : file read is completed */
+            }
             if (sizeCheck != LZ4IO_LEGACY_BLOCK_HEADER_SIZE)
                 END_PROCESS(62, "Error: cannot read block size in Legacy format");
         }
@@ -2373,7 +2382,10 @@ selectDecoder(dRess_t ress,
         g_magicRead = 0;
     } else {
         size_t const nbReadBytes = fread(MNstore, 1, MAGICNUMBER_SIZE, finput);
-        if (nbReadBytes==0) { nbFrames = 0; return ENDOFSTREAM; }   /* EOF */
+        if (nbReadBytes==0) {
+            if (ferror(finput)) END_PROCESS(54, "Read error : cannot read next frame header");
+            nbFrames = 0; return ENDOFSTREAM;   /* EOF */
+        }
         if (nbReadBytes != MAGICNUMBER_SIZE)
           END_PROCESS(40, "Unrecognized header : Magic Number unreadable");
         magicNumber = LZ4IO_readLE32(MNstore);   /* Little Endian format */
